@@ -1,5 +1,7 @@
 """Thorough tier: the same rules on the other feature configurations (+ witnesses / self-tests
 registered per property)."""
+import os
+
 import props
 
 EXTRA_CONFIGS = ["default", "nodefault", "nightly"]
@@ -19,6 +21,9 @@ def extra(pid, rule_names):
     import rules_witness as RW
     if any(pid in ps for ps in RW.WITNESS_PROPS.values()):
         res.append(RW.rule_witness(pid))
+    if not os.environ.get("VERIF_NO_SELFTEST") and not os.environ.get("VERIF_REPO"):
+        import selftest
+        res.append(selftest.rule_selftest(pid))
     for cfg in EXTRA_CONFIGS:
         rs = props.eval_rules(rule_names, cfg, pid)
         for r in rs:
